@@ -10,11 +10,17 @@ REGISTRATION = {
             "sizes, alignments): declared offsets are aligned and the tensor's bytes are found there "
             "(bytes_at_declared_offset); full decoder round trip decode(encode kvs ts) = written keys/values + parameter "
             "count, tensor infos with reversed shapes and declared offsets, aligned data start, end offset = file length "
-            "(decode_encode_any_key_order: keys in any order and distinct — the writer's key sort is in the model —, lengths/counts below 2^63); create's ggufLayers takes such a file as exactly one layer, the uploaded blob itself (create_takes_written_file_whole). Model = code is checked byte-for-byte on thousands of generated files per run, and the "
+            "(decode_encode_any_key_order: keys in any order and distinct — the writer's key sort is in the model —, lengths/counts below 2^63); "
+            "the whole property as ONE statement whose only size bound is file length < 2^63 (write_decode_full: keys and values as list and "
+            "as look-ups, per tensor name/kind/reversed shape, written bytes at the decoded location, location aligned and inside the file, "
+            "end offset = file length; per-string/array/count/offset bounds derived from the file length); the same file decoded at any "
+            "aligned position inside a bigger file ends at position + length (decode_written_file_at) and several written files uploaded "
+            "back to back become exactly one layer per file (create_layers_of_written_files); create's ggufLayers takes a single such file as exactly one layer, the uploaded blob itself (create_takes_written_file_whole). "
+            "ggufPadding is executed over offsets x alignments on every run and compared with the model by decide (padding_table_matches). Model = code is checked byte-for-byte on thousands of generated files per run, and the "
             "property predicate is evaluated on the real decoder's view of the real writer's file.",
     "design_ref": "DESIGN.md §5 C05",
     "note": COMMON_NOTE + "Modelled, not verified: the tensor sort (any permutation is covered by the theorem; "
-            "the harness feeds the order the real sort produced), Tensor.WriterTo writes exactly Size() bytes "
+            "the harness reads the order the real sort produced back from the data sources), Tensor.WriterTo writes exactly Size() bytes "
             "(WfT), file-system writes are faithful.",
 }
 
@@ -23,6 +29,9 @@ THEOREMS = [
     "OllamaVerif.C05.bytes_at_declared_offset",
     "OllamaVerif.C05.decode_encode",
     "OllamaVerif.C05.decode_encode_any_key_order",
+    "OllamaVerif.C05.write_decode_full",
+    "OllamaVerif.C05.decode_written_file_at",
+    "OllamaVerif.C05.create_layers_of_written_files",
     "OllamaVerif.C05.end_offset_is_file_length",
     "OllamaVerif.C05.create_takes_written_file_whole",
     "OllamaVerif.C05.create_layers_disjoint",
@@ -30,22 +39,43 @@ THEOREMS = [
     "OllamaVerif.C05.F1_pinned_offsets_alias",
     "OllamaVerif.Tie.C05.type_table_complete",
     "OllamaVerif.Tie.C05.type_table_matches",
+    "OllamaVerif.Tie.C05.padding_table_matches",
+    "OllamaVerif.Tie.C05.padding_table_nonempty",
 ]
+
+# branches of writer / decoder / create's loop the theorems talk about: the L1 generator must have exercised each of them
+# in this run (stats.txt counters of the drivers); otherwise the run proves nothing about that branch -> fail closed
+REQUIRED_COUNTERS = [
+    "kvtype_u32", "kvtype_f32", "kvtype_bool", "kvtype_str", "kvtype_ai32", "kvtype_au32", "kvtype_af32", "kvtype_astr",
+    "kv_empty_string", "kv_empty_array", "kv_array_collected", "kv_array_not_collected",
+    "cases_no_tensor", "cases_ge3_tensors", "cases_sort_reordered", "cases_alignment_not_32",
+    "tensor_size_not_multiple_of_32", "decode_at_offset_cases", "failing_source_cases",
+    "tensor_size_checked_independently",
+]
+REQUIRED_API_COUNTERS = ["api_multi_model_files", "api_multi_ok", "api_multi_err"]
 OVERLAY = {"fs/ggml/zz_verif_gguf_test.go": "fs_ggml/zz_verif_gguf_test.go"}
 
 
 def regenerate(ctx):
     """Tie 1: execute the real Tensor.typeSize/blockSize for kinds 0..63 and emit the table."""
     rc, out, outdir = ctx.go_test("./fs/ggml/", OVERLAY, "^TestVerifC05Table$")
-    rows = []
+    rows, prow = [], []
     if rc == 0:
         for line in open(outdir + "/table.txt"):
             k, ts, bs = line.split()
             rows.append(f"({k}, {ts}, {bs})")
+        for line in open(outdir + "/padding.txt"):
+            off, al, pad = line.split()
+            prow.append(f"({off}, {al}, {pad})")
     body = ("-- REGENERATED on every run by vlib/checks/c05.py from /repo's working tree. Do not edit.\n"
             "namespace OllamaVerif.Generated.C05\n"
             "/-- (kind, typeSize, blockSize) as returned by the real methods -/\n"
             "def typeTable : List (Nat × Nat × Nat) := [" + ", ".join(rows) + "]\n"
+            "/-- (offset, alignment, ggufPadding(offset, alignment)) as returned by the real function -/\n"
+            + "".join(f"def paddingChunk{i} : List (Nat × Nat × Nat) := [" + ", ".join(prow[j:j + 96]) + "]\n"
+                      for i, j in enumerate(range(0, len(prow), 96)))
+            + "def paddingTable : List (Nat × Nat × Nat) := "
+            + (" ++ ".join(f"paddingChunk{i}" for i in range((len(prow) + 95) // 96)) or "[]") + "\n"
             "end OllamaVerif.Generated.C05\n")
     core.write_generated("OllamaVerif/Generated/C05_TypeTable.lean", body)
 
@@ -60,9 +90,15 @@ def run(ctx):
     rc, out, outdir = ctx.go_test("./fs/ggml/", overlay, "^TestVerifC05$", env=env)
     if rc != 0:
         ctx.violation("driver-failed", "", out[-1500:], no_input=True)
-    ctx.read_stats(outdir)
+    st = ctx.read_stats(outdir)
     ctx.l1(outdir)
     failures = ctx.l2(outdir)
+    if not ctx.replay:
+        missing = [k for k in REQUIRED_COUNTERS if st.get(k, 0) == 0]
+        ctx.coverage["branch_counters_required"] = len(REQUIRED_COUNTERS) + len(REQUIRED_API_COUNTERS)
+        if missing:
+            ctx.violation("correspondence-coverage", "", "branches the theorems speak about were never exercised by "
+                          "the generator in this run: " + ", ".join(missing), no_input=True)
     # create's use of the end offset (server/create.go ggufLayers is an anchor of C05): uploads of one and of several
     # models back to back through the real POST /api/create; layer sizes and kinds vs the model (L1, oracle-c10) and
     # "every layer cut out of the upload is exactly one model" on the layer blobs the server wrote (L2)
@@ -71,7 +107,10 @@ def run(ctx):
                                         "^TestVerifC10API$", env={"VERIF_N": ctx.scale(12, 200)}, timeout=1500)
         if arc != 0:
             ctx.violation("driver-failed", "api", aout[-1500:], no_input=True)
-        ctx.read_stats(apidir)
+        ast = ctx.read_stats(apidir)
+        amissing = [k for k in REQUIRED_API_COUNTERS if ast.get(k, 0) == 0]
+        if amissing and arc == 0:
+            ctx.violation("correspondence-coverage", "api", "create-level branches never exercised: " + ", ".join(amissing), no_input=True)
         failures += [f for f in ctx.l2(apidir) if f["kind"] == "api-create-layer-not-one-model"]
         ctx.oracle_name = "C10"
         ctx.lake_build(["oracle-c10"])
